@@ -386,6 +386,12 @@ func (e *Env) evalBinary(x EBinary) TV {
 	rt := a.T
 	switch x.Op {
 	case "+":
+		if a.T.K == KStr || b.T.K == KStr {
+			vc := e.vc
+			vc.declareOnce("strcat", "(declare-fun strcat (Int Int) Int)\n(assert (forall ((a! Int) (b! Int)) (! (= (strlen (strcat a! b!)) (+ (strlen a!) (strlen b!))) :pattern ((strcat a! b!)))))")
+			vc.strLen(Zero)
+			return TV{app(SInt, "strcat", ta, tb), SType{K: KStr, Go: types.Typ[types.String]}}
+		}
 		return TV{Add(ta, tb), rt}
 	case "-":
 		return TV{Sub(ta, tb), rt}
@@ -395,6 +401,22 @@ func (e *Env) evalBinary(x EBinary) TV {
 		return TV{app(SInt, "div", ta, tb), rt}
 	case "%":
 		return TV{app(SInt, "mod", ta, tb), rt}
+	case "<", "<=", ">", ">=":
+		if a.T.K == KStr && b.T.K == KStr {
+			e.vc.declareOnce("strlt", "(declare-fun strlt (Int Int) Bool)")
+			switch x.Op {
+			case "<":
+				return TV{app(SBool, "strlt", ta, tb), tBool}
+			case ">":
+				return TV{app(SBool, "strlt", tb, ta), tBool}
+			case "<=":
+				return TV{Not(app(SBool, "strlt", tb, ta)), tBool}
+			default:
+				return TV{Not(app(SBool, "strlt", ta, tb)), tBool}
+			}
+		}
+	}
+	switch x.Op {
 	case "<":
 		return TV{Lt(ta, tb), tBool}
 	case "<=":
